@@ -7,6 +7,11 @@ header with d dependent variables and a user-comment attributes and compared
 with the layout the writer emits (its declared line count is AST-extracted from
 ncf2ffi1001; its concrete header is recorded for small d, a and must match the
 general form).
+L3 (record table): the reader's data section (text -> lines -> genfromtxt ->
+reshape/swapaxes -> per-variable column) and the writer's row loop are
+AST-extracted and run on index maps (shape + origin of every cell) with a
+symbolic record count n and a symbolic cell (c, r): record r of variable c is
+read back as record r of variable c, POINTS == n, one line per record.
 L2 (missing codes): the writer's header text of a missing code (str / %g / ...)
 and its data text (%.6e) are AST-extracted and modelled as decimal roundings;
 for a symbolic integer code both must parse to the same number, otherwise the
@@ -32,8 +37,9 @@ ASSUMPTIONS = [
     '%g 6, %.Ne N+1 digits); reading text back is exact',
     'attribute values are single-line strings (an attribute containing a '
     'newline makes the declared header count wrong: see DESIGN)',
-    'data values, record counts and the array reshaping of the reader '
-    '(numpy.genfromtxt) are outside; names/units string handling is outside',
+    'numpy.genfromtxt is its shape contract (n lines of v numbers -> (n, v), '
+    'a single line squeezed to (v,), unpack/ndmin honoured); data values '
+    'themselves and names/units string handling are outside',
     'missing codes: integers with |m| < 10**9; round trip claimed for '
     'codes of at most 7 significant digits (the format\'s precision)',
 ]
@@ -51,9 +57,13 @@ MANIFEST = {
             'line count equals the lines emitted; (L2) for every integer '
             'missing code of at most 7 significant digits the code declared '
             'in the header equals the value written into masked cells, so '
-            'the mask survives.',
-    'note': 'Trusted: z3, the decimal-rounding model of printf. Data values '
-            'and record handling are outside (not claimed).',
+            'the mask survives; (L3) for ANY record count n >= 1 (2-3 '
+            'variables quick, up to 6 thorough) record r of variable c is '
+            'written to line r, column c and read back into cell r of '
+            'variable c, with POINTS == n (index-map model of the shape-only '
+            'numpy calls between text and variables).',
+    'note': 'Trusted: z3, the decimal-rounding model of printf, the shape '
+            'contract of numpy.genfromtxt. Data values are outside.',
 }
 
 MOD = 'PseudoNetCDF.icarttfiles.ffi1001'
@@ -440,8 +450,503 @@ class MissingCode(Obligation):
         return {'obs': {}, 'violations': viol, 'code': m}
 
 
+# ---------------------------------------------------------------------------
+# L3: the record table -- which text cell ends up in which variable cell
+# ---------------------------------------------------------------------------
+def _z(x):
+    """z3 Int term of a python int / SymInt / z3 term"""
+    if isinstance(x, z3.ExprRef):
+        return x
+    if isinstance(x, symx.SymInt):
+        return x.e
+    if isinstance(x, (int, np.integer)) and not isinstance(x, bool):
+        return z3.IntVal(int(x))
+    raise loader.HarnessError('record table: index of type %s' %
+                              type(x).__name__)
+
+
+class IndexMap(object):
+    """An array known only by its shape (python ints or symbolic ints) and
+    by where each cell comes from: fn(index terms) -> (variable c, record r)
+    as z3 terms.  Models the shape-only numpy calls the reader and writer
+    use between the text and the variables."""
+
+    def __init__(self, shape, fn):
+        self.shape = tuple(shape)
+        self.fn = fn
+
+    ndim = property(lambda self: len(self.shape))
+
+    def _size(self):
+        out = z3.IntVal(1)
+        for d in self.shape:
+            out = out * _z(d)
+        return z3.simplify(out)
+
+    def __len__(self):
+        raise loader.HarnessError('record table: len() of a symbolic array')
+
+    def __symlen__(self):
+        return self.shape[0]
+
+    def _perm(self, order):
+        order = tuple(order)
+        fn = self.fn
+
+        def g(*idx):
+            src = [None] * len(order)
+            for k, ax in enumerate(order):
+                src[ax] = idx[k]
+            return fn(*src)
+        return IndexMap([self.shape[a] for a in order], g)
+
+    @property
+    def T(self):
+        return self._perm(range(self.ndim - 1, -1, -1))
+
+    def transpose(self, *axes):
+        if len(axes) == 1 and isinstance(axes[0], (tuple, list)):
+            axes = tuple(axes[0])
+        if not axes or axes == (None,):
+            return self.T
+        return self._perm([a % self.ndim for a in axes])
+
+    def swapaxes(self, a, b):
+        if self.ndim < 2:
+            raise ValueError('bad axis1 argument to swapaxes')
+        order = list(range(self.ndim))
+        a, b = a % self.ndim, b % self.ndim
+        order[a], order[b] = order[b], order[a]
+        return self._perm(order)
+
+    def ravel(self):
+        return self.reshape(-1)
+
+    def view(self, *a, **k):
+        return self
+
+    def astype(self, *a, **k):
+        return self
+
+    def copy(self):
+        return self
+
+    def reshape(self, *shape, **kw):
+        if len(shape) == 1 and isinstance(shape[0], (tuple, list)):
+            shape = tuple(shape[0])
+        ctx = symx.cur()
+        size = self._size()
+        shape = list(shape)
+        neg = [i for i, d in enumerate(shape)
+               if isinstance(d, int) and d == -1]
+        if len(neg) > 1:
+            raise ValueError('can only specify one unknown dimension')
+        if neg:
+            rest = z3.IntVal(1)
+            for i, d in enumerate(shape):
+                if i != neg[0]:
+                    rest = rest * _z(d)
+            q = z3.Int('rs%d' % ctx.nfresh)
+            ctx.nfresh += 1
+            if not ctx.branch(z3.And(rest > 0, size % rest == 0)):
+                raise ValueError('cannot reshape array')
+            ctx.assume(q * rest == size, check=False)
+            shape[neg[0]] = symx.SymInt(q)
+        else:
+            new = z3.IntVal(1)
+            for d in shape:
+                new = new * _z(d)
+            if not ctx.branch(z3.simplify(new == size)):
+                raise ValueError('cannot reshape array of that size')
+        src_shape = self.shape
+        fn = self.fn
+
+        def g(*idx):
+            flat = z3.IntVal(0)
+            for d, i in zip(shape, idx):
+                flat = flat * _z(d) + _z(i)
+            # unravel on the source shape (row major)
+            src = []
+            rem = flat
+            for d in reversed(src_shape[1:]):
+                dz = _z(d)
+                src.append(rem % dz)
+                rem = rem / dz
+            src.append(rem)
+            return fn(*reversed(src))
+        return IndexMap(shape, g)
+
+    def __getitem__(self, k):
+        if isinstance(k, tuple):
+            out = self
+            for kk in k:
+                out = out[kk]
+            return out
+        if isinstance(k, slice):
+            if k == slice(None):
+                return self
+            raise loader.HarnessError('record table: slice %r' % (k,))
+        kz = _z(k)
+        fn = self.fn
+        if self.ndim == 1:
+            return Cell(*fn(kz))
+        return IndexMap(self.shape[1:], lambda *idx: fn(kz, *idx))
+
+
+class Cell(object):
+    def __init__(self, c, r):
+        self.c, self.r = c, r
+
+
+class _Lines(object):
+    """the data part of the file split at newlines: n record lines followed
+    by the concrete trailing pieces the writer leaves"""
+
+    def __init__(self, n, v, trailing):
+        self.n, self.v, self.trailing = n, v, list(trailing)
+
+    def __symlen__(self):
+        return self.n + len(self.trailing)
+
+    def __getitem__(self, k):
+        if k == -1:
+            return self.trailing[-1] if self.trailing else _Record()
+        raise loader.HarnessError('record table: line index %r' % (k,))
+
+    def pop(self, k=-1):
+        if k != -1 or not self.trailing:
+            raise loader.HarnessError('record table: pop(%r)' % (k,))
+        return self.trailing.pop()
+
+
+class _Record(object):
+    """a line of numbers: equal to no blank string"""
+
+    def __eq__(self, o):
+        return False
+
+    def __hash__(self):
+        return 7
+
+
+class _Text(object):
+    def __init__(self, n, v, trailing=('',)):
+        self.n, self.v, self.trailing = n, v, list(trailing)
+
+    def split(self, sep=None):
+        if sep != '\n':
+            raise loader.HarnessError('record table: split(%r)' % (sep,))
+        return _Lines(self.n, self.v, self.trailing)
+
+    def splitlines(self):
+        return _Lines(self.n, self.v, [])
+
+    def strip(self, *a):
+        return _Text(self.n, self.v, [])
+
+    rstrip = strip
+
+    def encode(self, *a):
+        return self
+
+    def decode(self, *a):
+        return self
+
+
+def _join(sep, lines):
+    if sep != '\n' or not isinstance(lines, _Lines):
+        raise loader.HarnessError('record table: join')
+    return _Text(lines.n, lines.v, lines.trailing)
+
+
+def _genfromtxt(text, delimiter=None, dtype=float, unpack=False, ndmin=0,
+                **kw):
+    """numpy.genfromtxt on n lines of v numbers (v >= 2): shape (n, v),
+    squeezed to (v,) for a single line unless ndmin=2; unpack transposes"""
+    if kw:
+        raise loader.HarnessError('record table: genfromtxt(%s)' %
+                                  ','.join(kw))
+    if not isinstance(text, _Text):
+        raise loader.HarnessError('record table: genfromtxt input')
+    if any(t.strip() == '' for t in text.trailing[:-1]):
+        raise loader.HarnessError('record table: blank lines inside data')
+    n, v = text.n, text.v
+    ctx = symx.cur()
+    if ndmin != 2 and ctx.branch(_z(n) == 1):
+        return IndexMap((v,), lambda j: (j, z3.IntVal(0)))
+    out = IndexMap((n, v), lambda i, j: (j, i))
+    return out.T if unpack else out
+
+
+class _JoinRewrite(ast.NodeTransformer):
+    def visit_Call(self, node):
+        self.generic_visit(node)
+        f = node.func
+        if isinstance(f, ast.Attribute) and f.attr == 'join' and \
+                isinstance(f.value, ast.Constant) and f.value.value == '\n':
+            return ast.copy_location(ast.Call(
+                func=ast.Name(id='_join', ctx=ast.Load()),
+                args=[f.value] + node.args, keywords=[]), node)
+        return node
+
+
+def _has_call(st, attr):
+    return any(isinstance(n, ast.Call) and (
+        (isinstance(n.func, ast.Attribute) and n.func.attr == attr) or
+        (isinstance(n.func, ast.Name) and n.func.id == attr))
+        for n in ast.walk(st))
+
+
+class RecordTable(Obligation):
+    encoding_fragile = True
+
+    def __init__(self, v):
+        self.v = v
+        self.name = 'record-table[variables=%d,n symbolic]' % v
+        self.bounds = {'variables (incl. the independent one)': v,
+                       'records n': '1..%d' % self.NMAX,
+                       'cell': 'any (variable c, record r)'}
+
+    NMAX = 10 ** 6
+    mode = 'int'
+    validate_paths = 3
+    stubs = ('numpy.genfromtxt: shape contract on n lines of v numbers '
+             '(squeeze of a single line, unpack, ndmin)',
+             'reshape/swapaxes/T/ravel/array: index maps (row-major)',
+             'the file text: n record lines + the trailing pieces the '
+             'writer leaves; StringIO/encode are identities')
+
+    def fallback_inputs(self):
+        return [{'n': 1, 'c': 1, 'r': 0}, {'n': 2, 'c': self.v - 1, 'r': 1},
+                {'n': 3, 'c': 0, 'r': 2}]
+
+    def _prep(self):
+        sp = loader.TwinSpace()
+        R = sp.twin(MOD)
+        rnode, path = loader.get_function_ast(MOD, 'ffi1001.__init__')
+        body = rnode.body
+        i0 = [i for i, st in enumerate(body) if _has_call(st, 'read') and
+              isinstance(st, ast.Assign)]
+        i1 = [i for i, st in enumerate(body) if isinstance(st, ast.For) and
+              _has_call(st, 'PseudoNetCDFVariable')]
+        if not i0 or not i1 or i1[0] <= i0[-1]:
+            raise loader.HarnessError('ffi1001.__init__: data section not '
+                                      'found')
+        rstm = body[i0[-1]:i1[0]]
+        loop = body[i1[0]]
+        # dat = <table>[vi]: the per-variable column
+        col = None
+        tgt = loop.target
+        ivar = tgt.elts[0].id if isinstance(tgt, ast.Tuple) else None
+        for st in loop.body:
+            if isinstance(st, ast.Assign) and isinstance(
+                    st.value, ast.Subscript) and isinstance(
+                    st.value.slice, ast.Name) and st.value.slice.id == ivar \
+                    and isinstance(st.value.value, ast.Name) and \
+                    st.value.value.id not in ('scales', 'missing', 'units',
+                                              'llod_flags', 'llod_values',
+                                              'ulod_flags', 'ulod_values'):
+                col = st.value
+        if col is None or ivar is None:
+            raise loader.HarnessError('ffi1001.__init__: column selection '
+                                      'not found')
+        wnode, _ = loader.get_function_ast(MOD, 'ncf2ffi1001')
+        wloop = [st for st in wnode.body if isinstance(st, ast.For) and
+                 _has_call(st, 'tofile')]
+        if len(wloop) != 1 or not isinstance(wloop[0].target, ast.Name):
+            raise loader.HarnessError('ncf2ffi1001: row loop not found')
+        wloop = wloop[0]
+        # per row: one tofile of the row and one line end
+        calls = [n for st in wloop.body for n in ast.walk(st)
+                 if isinstance(n, ast.Call)]
+        tof = [c for c in calls if isinstance(c.func, ast.Attribute) and
+               c.func.attr == 'tofile']
+        if len(tof) != 1 or not isinstance(tof[0].func.value, ast.Name) or \
+                tof[0].func.value.id != wloop.target.id:
+            raise loader.HarnessError('ncf2ffi1001: row writing not '
+                                      'understood')
+
+        def code(node, mode):
+            if mode == 'exec':
+                node = [_JoinRewrite().visit(loader._Rewrite().visit(x))
+                        for x in node]
+                top = ast.Module(body=node, type_ignores=[])
+            else:
+                node = _JoinRewrite().visit(loader._Rewrite().visit(node))
+                top = ast.Expression(body=node)
+            ast.fix_missing_locations(top)
+            return compile(top, path + ':<records>', mode)
+        import copy
+        import hashlib
+        stm = [ast.unparse(s) for s in rstm] + [ast.unparse(col),
+                                                ast.unparse(wloop)]
+        self._info = {'file': 'src/PseudoNetCDF/icarttfiles/ffi1001.py',
+                      'qualname': 'ffi1001.__init__ data section + '
+                                  'ncf2ffi1001 row loop',
+                      'statements': stm,
+                      'sha256': hashlib.sha256('\n'.join(stm).encode())
+                      .hexdigest()[:16]}
+        return (sp, R, code(copy.deepcopy(rstm), 'exec'),
+                code(copy.deepcopy(col), 'eval'),
+                code(copy.deepcopy(wloop.iter), 'eval'))
+
+    def sym(self, ctx, h):
+        sp, R, rcode, colcode, itercode = self._prep()
+        self._space = None
+        v = self.v
+        n = ctx.int('n', 1, self.NMAX)
+        c = ctx.int('c', 0, v - 1)
+        r = ctx.int('r', 0, self.NMAX)
+        ctx.assume(r.e < n.e, check=False)
+        b = dict(sp.builtins)
+        b['len'] = _symlen_any
+        env0 = dict(R.__dict__)
+        env0['__builtins__'] = b
+        env0['_join'] = _join
+
+        def stack(lst, *a, **k):
+            lst = list(lst)
+            inner = lst[0].shape
+
+            def g(i, *idx):
+                cs, rs = zip(*[m.fn(*idx) for m in lst])
+                oc, orr = cs[-1], rs[-1]
+                for k_ in range(len(lst) - 2, -1, -1):
+                    oc = z3.If(i == k_, cs[k_], oc)
+                    orr = z3.If(i == k_, rs[k_], orr)
+                return oc, orr
+            return IndexMap((len(lst),) + tuple(inner), g)
+        # ---- writer: what is on text line i, column j
+        vals = [IndexMap((n,), (lambda k_: (lambda i: (z3.IntVal(k_), i)))(k))
+                for k in range(v)]
+        try:
+            rows = eval(itercode, dict(env0, vals=vals, array=stack,
+                                       asarray=stack))
+        except loader.HarnessError:
+            raise
+        except Exception as ex:
+            raise loader.HarnessError('writer row expression: %r' % (ex,))
+        if not isinstance(rows, IndexMap) or rows.ndim != 2:
+            raise loader.HarnessError('writer rows are not a 2-D table')
+        h.claim('writer:one-line-per-record',
+                symx._b(_z(rows.shape[0]) == n.e))
+        h.claim('writer:one-column-per-variable',
+                symx._b(_z(rows.shape[1]) == v))
+        wc, wr = rows.fn(r.e, c.e)
+        h.claim('writer:cell', z3.And(wc == c.e, wr == r.e))
+        # ---- reader: where text cell (line i, column j) ends up
+        me = type('S', (), {})()
+        dims = {}
+        me.createDimension = lambda k_, n_, *a: dims.__setitem__(k_, n_)
+        fstub = type('F', (), {'read': lambda s: _Text(n, v)})()
+        env = dict(env0, self=me, f=fstub, genfromtxt=_genfromtxt,
+                   StringIO=lambda x: x, BytesIO=lambda x: x,
+                   variables=['v%d' % i for i in range(v)],
+                   delim=', ')
+        try:
+            exec(rcode, env)
+            colv = eval(colcode, dict(env, **{self._ivar(colcode): c}))
+        except ValueError as ex:
+            h.claim('reader:reads', False)
+            h.observe('raised', True)
+            return
+        except loader.HarnessError:
+            raise
+        except Exception as ex:
+            raise loader.HarnessError('reader data section: %r' % (ex,))
+        if isinstance(colv, Cell) or (isinstance(colv, IndexMap) and
+                                      colv.ndim != 1):
+            # a 0-d or 2-d column cannot fill a ('POINTS',) variable
+            h.claim('reader:column-is-1-D', False)
+            h.observe('raised', True)
+            return
+        if not isinstance(colv, IndexMap):
+            raise loader.HarnessError('reader column is not an array')
+        h.claim('reader:record-count', symx._b(_z(colv.shape[0]) == n.e))
+        if 'POINTS' in dims:
+            h.claim('reader:POINTS', symx._b(_z(dims['POINTS']) == n.e))
+        cell = colv[r]
+        h.claim('reader:cell', z3.And(cell.c == c.e, cell.r == r.e))
+        h.observe('raised', False)
+
+    @staticmethod
+    def _ivar(code):
+        names = [nm for nm in code.co_names if nm not in ('data',)]
+        return names[-1] if names else 'vi'
+
+    def real(self, inputs):
+        import warnings
+        v = self.v
+        n = max(1, min(int(frac_of(inputs.get('n', 2))), 6))
+        viol = {}
+        tmp = tempfile.mkdtemp(prefix='verif_c19_')
+        path = os.path.join(tmp, 'r.ict')
+        try:
+            with warnings.catch_warnings():
+                warnings.simplefilter('ignore')
+                from PseudoNetCDF import PseudoNetCDFFile
+                from PseudoNetCDF.icarttfiles.ffi1001 import ffi1001, \
+                    ncf2ffi1001
+                f = PseudoNetCDFFile()
+                f.createDimension('POINTS', n)
+                t = f.createVariable('Start_UTC', 'd', ('POINTS',))
+                t[:] = [60. * i for i in range(n)]
+                t.units = 's'
+                want = {'Start_UTC': [60. * i for i in range(n)]}
+                for k in range(1, v):
+                    x = f.createVariable('V%d_ppb' % k, 'd', ('POINTS',))
+                    want['V%d_ppb' % k] = [100. * k + i + 0.5
+                                           for i in range(n)]
+                    x[:] = want['V%d_ppb' % k]
+                    x.units = 'ppb'
+                    x.missing_value = -9999
+                f.SDATE = '2004, 01, 10,'
+                f.WDATE = '2004, 01, 11'
+                f.INDEPENDENT_VARIABLE = 'Start_UTC'
+                try:
+                    ncf2ffi1001(f, path).close()
+                    lines = open(path).read().split('\n')
+                    nh = int(lines[0].split(',')[0])
+                    recs = [ln for ln in lines[nh:] if ln.strip()]
+                    if len(recs) != n:
+                        viol['writer:one-line-per-record'] = \
+                            '%d records written as %d lines' % (n, len(recs))
+                    elif any(len(ln.split(',')) != v for ln in recs):
+                        viol['writer:one-column-per-variable'] = recs[0]
+                    g = ffi1001(path)
+                    if len(g.dimensions['POINTS']) != n:
+                        viol['reader:POINTS'] = '%d records read as %d' % (
+                            n, len(g.dimensions['POINTS']))
+                    for k_, w in want.items():
+                        got = np.ma.filled(g.variables[k_][:], np.nan)
+                        if got.shape != (n,) or not np.allclose(
+                                got, w, rtol=1e-6, atol=0):
+                            viol['reader:cell'] = '%s: wrote %r read %r' % (
+                                k_, w, got.tolist())
+                            break
+                except Exception as ex:
+                    viol['reader:reads'] = repr(ex)[:200]
+        finally:
+            for fn in os.listdir(tmp):
+                os.remove(os.path.join(tmp, fn))
+            os.rmdir(tmp)
+        return {'obs': {'raised': 'reader:reads' in viol},
+                'violations': viol, 'n': n, 'v': v}
+
+    any_violation_confirms = True
+
+
+def _symlen_any(x):
+    if hasattr(x, '__symlen__'):
+        return x.__symlen__()
+    if isinstance(x, LenStub):
+        return x.n
+    return len(x)
+
+
 def obligations(tier):
-    return [Layout(), MissingCode()]
+    vs = (2, 3) if tier == 'quick' else (2, 3, 4, 6)
+    return [Layout(), MissingCode()] + [RecordTable(v) for v in vs]
 
 
 def region_over7(inputs):
